@@ -31,6 +31,9 @@ func (ex *Exec) lookupNameC(p *Path, name string) (Value, bool) {
 	if v, ok := p.entry[name]; ok {
 		return v, true
 	}
+	if v, ok := ex.reboundLocal(p, name); ok {
+		return v, true
+	}
 	return Value{}, false
 }
 
